@@ -179,6 +179,10 @@ func VerifMain(args []string) int {
 		}
 		run(genLattice(12, 4))
 		run(genChain(2000))
+	case "paths":
+		runPathStreams(out, r, *n)
+	case "fields":
+		runFieldStreams(out, r, *n)
 	case "names":
 		runNameStreams(out, r, *n)
 	case "sig":
